@@ -25,14 +25,31 @@ SCOPE = {
              "abstract x extends; 600 random field expressions of depth 3-4; + 1500 seeded random specifications (<=3 categories, <=7 assets, expressions up to "
              "depth 4, TTC up to depth 3) each under 2 of 11 source layouts (1-4 files, sub-directories, repeated "
              "/ chained / diamond includes) and a random spelling style; + coreLang 1.0.0 (single file, two split "
-             "layouts, and through LanguageGraph.from_mal_spec)",
+             "layouts, and through LanguageGraph.from_mal_spec); "
+             "+ declarations that SHARE THEIR NAME: every pair of associations agreeing / differing in name x (left, "
+             "right) asset types (same, swapped, reflexive) x left field x right field x multiplicity x meta (two equal "
+             "associations excepted), some with a third one, each in one file (one / several associations blocks) and "
+             "split over repeated / two / diamond / permuted includes; categories declared 2-3 times with different "
+             "meta (with / without assets, adjacent / separated); a resolvable language with two `Attached` Host-Net and "
+             "two `Tree` Host-Host associations told apart by their fields (compiler and LanguageGraph.from_mal_spec); "
+             "400 seeded random specifications with 1-3 name-sharing associations (same types other fields, swapped, "
+             "other types, one field / multiplicity / meta only) and re-declared categories; "
+             "+ source layouts in which THE SAME INCLUDE STRING DENOTES DIFFERENT FILES (6 multi-directory kinds: "
+             "a/mod.mal and b/mod.mal each including their own \"assoc.mal\"; three directories; nested directories; "
+             "modules included repeatedly; \"lib/x.mal\" written in the root and in a/mod.mal): the resolvable languages, "
+             "coreLang, the name-sharing specifications and 600 seeded random specifications, the same-named files "
+             "non-empty whenever there are enough declarations",
     "thorough": "as quick, plus every TTC tree with 4 operators (seeded 30% sample), a seeded sample of 20000 field "
-                "expressions of depth 3-4, 20000 more random specifications x 3 layouts",
+                "expressions of depth 3-4, 20000 more random specifications x 3 layouts, 4000 more name-sharing random "
+                "specifications, 6000 more random specifications under the same-include-string layouts",
 }
 EXHAUSTIVE = {"quick": False, "thorough": False}
 RULE = ("case = (specification in output format, source layout, spelling style); the specification is printed, "
         "written to a temp dir, compiled by the real compiler; non-trivial when the specification has at least one "
-        "asset or association; distinct = distinct (specification, layout kind)")
+        "asset or association; distinct = distinct (specification, layout kind). Names of declarations need not be "
+        "unique: associations may share name and asset types (distinct as long as one attribute differs), a category "
+        "may be declared again with other meta. Layout kinds include multi-directory trees where one include string, "
+        "written in files of different directories, denotes different files")
 ASSUMPTIONS = [
     "printer lib_comp.print_decls is the trusted inverse of the MAL denotation (written from mal.g4, not from the visitor)",
     "well-formed = derivable from mal.g4 with names that the lexer delivers as ID (no keyword, none of the single "
@@ -41,6 +58,12 @@ ASSUMPTIONS = [
     "generated ANTLR lexer/parser trusted",
     "where 'include \"c.mal\"' inside sub/b.mal points to (next to b.mal or next to the root) is not fixed by the "
     "property: layouts of that kind provide the same file at both places",
+    "layouts 'samename-*' (the same include string denotes different files, relative to the directory of the "
+    "including file) also provide, where the string points to relative to the root, a file with the declarations of all "
+    "files of that name, so that both readings denote the same set of declarations; they are compared including order "
+    "only where both readings give the same order",
+    "a category declared again with other meta information denotes a further entry of `categories` (declarations are "
+    "de-duplicated as wholes); two associations are the same declaration only if all their attributes are equal",
     "coreLang: the .mar langspec.json and the compiler output have the same key set at every level "
     "(formatVersion, defines, categories[name, meta], assets[name, meta, category, isAbstract, superAsset, "
     "variables[name, stepExpression], attackSteps[name, meta, type, tags, risk, ttc, requires, reaches]], "
@@ -65,6 +88,70 @@ def _g_fixed(seed):
     yield {"kind": "mini", "layout": ["chain", 1], "style": 3, "via": "language-graph"}
     for k in L.LAYOUT_KINDS:
         yield {"kind": "mini", "layout": [k, 0], "style": 0, "via": "compiler"}
+    # resolvable language whose associations share name and asset types
+    yield {"kind": "mini-shared", "layout": ["single", 0], "style": 0, "via": "compiler"}
+    yield {"kind": "mini-shared", "layout": ["single", 0], "style": 0, "via": "language-graph"}
+    yield {"kind": "mini-shared", "layout": ["repeat", 2], "style": 5, "via": "language-graph"}
+    for k in L.LAYOUT_KINDS[1:]:
+        yield {"kind": "mini-shared", "layout": [k, 1], "style": 1 + len(k), "via": "compiler"}
+    # the same include string denoting different files
+    for i, k in enumerate(L.LAYOUT_KINDS_SAMENAME):
+        for ls in (0, 1, 2):
+            yield {"kind": "mini", "layout": [k, ls], "style": ls, "via": "compiler"}
+            yield {"kind": "mini-shared", "layout": [k, ls], "style": 3 * ls, "via": "compiler"}
+        yield {"kind": "mini", "layout": [k, 3], "style": 0, "via": "language-graph"}
+        yield {"kind": "mini-shared", "layout": [k, 4], "style": 2, "via": "language-graph"}
+        yield {"kind": "corelang", "layout": [k, seed + 1010 + i], "style": 0, "via": "compiler"}
+
+
+def _g_shared_names(rnd):
+    """declarations that share their name (own generator `rnd`: the other groups keep their cases)"""
+    split = ("repeat", "two", "diamond", "permuted")
+    for n, assocs in enumerate(L.enum_shared_name_assocs()):
+        spec = L.spec_with_assocs(assocs)
+        yield _case(spec, group="shared-assoc")                                     # one associations block
+        yield _case(spec, style=_STYLE_ASSOC_BLOCKS[1 + n % 2][n % 3], group="shared-assoc")     # several blocks
+        k = split[n % len(split)]
+        yield _case(spec, layout=(k, rnd.randrange(1000)), style=_STYLE_ASSOC_BLOCKS[1][n % 3], group="shared-assoc")
+        if n % 4 == 0:
+            k = L.LAYOUT_KINDS_SAMENAME[(n // 4) % len(L.LAYOUT_KINDS_SAMENAME)]
+            yield _case(spec, layout=(k, rnd.randrange(1000)), style=_STYLE_ASSOC_BLOCKS[1][n % 3], group="shared-assoc")
+    for n, spec in enumerate(L.enum_redeclared_categories()):
+        yield _case(spec, group="shared-category")
+        yield _case(spec, layout=(split[n % len(split)], rnd.randrange(1000)), style=rnd.randrange(1, 1000), group="shared-category")
+        if n % 3 == 0:
+            k = L.LAYOUT_KINDS_SAMENAME[(n // 3) % len(L.LAYOUT_KINDS_SAMENAME)]
+            yield _case(spec, layout=(k, rnd.randrange(1000)), style=rnd.randrange(1, 1000), group="shared-category")
+
+
+def _styles_by_assoc_blocks():
+    out = {0: [], 1: [], 2: []}
+    seed = 1
+    while any(len(v) < 3 for v in out.values()):
+        st = L.Style(seed)
+        if len(out[st.assoc_blocks]) < 3:
+            out[st.assoc_blocks].append(seed)
+        seed += 1
+    return out
+
+
+_STYLE_ASSOC_BLOCKS = _styles_by_assoc_blocks()          # assoc_blocks mode -> 3 style seeds with that mode
+
+
+def _g_random_shared(rnd, n):
+    kinds = [k for k in L.LAYOUT_KINDS if k != "single"] + L.LAYOUT_KINDS_SAMENAME
+    for i in range(n):
+        spec = L.gen_spec(rnd.randrange(1 << 30), size=rnd.choice((1, 2, 2, 3)), depth=rnd.choice((1, 2, 3)), shared_names=True)
+        yield _case(spec, layout=("single", 0), style=rnd.randrange(1, 1000), group="random-shared")
+        yield _case(spec, layout=(kinds[i % len(kinds)], rnd.randrange(1000)), style=rnd.randrange(1, 1000), group="random-shared")
+
+
+def _g_random_samename(rnd, n):
+    for i in range(n):
+        spec = L.gen_spec(rnd.randrange(1 << 30), size=rnd.choice((1, 2, 2, 3)), depth=rnd.choice((1, 2, 3)),
+                          shared_names=(i % 5 == 4))
+        k = L.LAYOUT_KINDS_SAMENAME[i % len(L.LAYOUT_KINDS_SAMENAME)]
+        yield _case(spec, layout=(k, rnd.randrange(1000)), style=rnd.randrange(1, 1000), group="random-samename")
 
 
 def _g_ttc_named():
@@ -166,11 +253,19 @@ def cases(tier, seed):
     yield from _g_steps()
     for t in L.enum_ttc(3):
         yield _case(L.spec_with_ttc(t), group="ttc")
+    rnd2 = random.Random(seed * 1000003 + 17)          # generator of the name-sharing / same-include-string groups
+    yield from _g_shared_names(rnd2)
+    yield from _g_random_shared(rnd2, 200)
+    yield from _g_random_samename(rnd2, 300)
     yield from _g_random_specs(rnd, 500, 1)
     yield from _g_exprs(rnd)
     yield from _g_random_exprs(rnd, 600)
     yield from _g_random_specs(rnd, 1000, 1, offset=500)
+    yield from _g_random_shared(rnd2, 200)
+    yield from _g_random_samename(rnd2, 300)
     if thorough:
+        yield from _g_random_shared(rnd2, 4000)
+        yield from _g_random_samename(rnd2, 6000)
         for t in L.enum_ttc(4):
             if sum(1 for _ in _nodes(t)) == 9 and rnd.random() < 0.3:
                 yield _case(L.spec_with_ttc(t), group="ttc4")
@@ -217,6 +312,8 @@ def _signature(diff, spec=None):
 def _layout_class(layout):
     paths = [p for p, _ in layout["files"]]
     incs = [it[1] for _, items in layout["files"] for it in items if it[0] == "inc"]
+    if layout["kind"] in L.LAYOUT_KINDS_SAMENAME:
+        return "include-same-string-different-files"
     return "include-with-directory" if any("/" in i for i in incs) else ("include-plain" if incs else "single")
 
 
@@ -227,6 +324,8 @@ def run_case(recipe):
         spec = L.load_corelang()
     elif recipe["kind"] == "mini":
         spec = L.valid_mini()
+    elif recipe["kind"] == "mini-shared":
+        spec = L.valid_mini_shared_names()
     else:
         spec = recipe["spec"]
     lkind, lseed = recipe["layout"]
@@ -237,8 +336,9 @@ def run_case(recipe):
     files1 = L.layout_files(decls, single, L.Style(style_seed))
     st1, out1 = L.compile_files(files1, via_language_graph=via_lg)
     fn_rt = "maltoolbox.language.languagegraph:LanguageGraph.from_mal_spec" if via_lg else FN_VISITOR
-    clause_rt = {"corelang": "C04.corelang-equals-mar", "mini": "C04.from-mal-spec", "spec": "C04.roundtrip"}[recipe["kind"]]
-    if recipe["kind"] == "mini" and not via_lg:
+    clause_rt = {"corelang": "C04.corelang-equals-mar", "mini": "C04.from-mal-spec", "mini-shared": "C04.from-mal-spec",
+                 "spec": "C04.roundtrip"}[recipe["kind"]]
+    if recipe["kind"] in ("mini", "mini-shared") and not via_lg:
         clause_rt = "C04.roundtrip"
     if via_lg:
         clause_rt = "C04.from-mal-spec"
